@@ -47,6 +47,17 @@ Theorem c05_role_independent_of_shards : forall cfg act auto sho st shard ss,
 Proof. exact infer_sh_role. Qed.
 Print Assumptions c05_role_independent_of_shards.
 
+(** (C06, F39 repair) With an automatic sharding key the shard a message selects, and whether it is
+    refused as multi-shard, depend on the statements' keys alone: not on recent database activity
+    (Initializing window, mutation cache), not on the role state.  False of the code before the
+    repair, where a read pinned to the primary by activity skipped shard inference. *)
+Theorem c05_shard_independent_of_activity : forall cfg auto sho st st' shard ss act act',
+  s_splitting cfg = true -> override_off st = false -> override_off st' = false -> ss <> [] ->
+  snd (fst (infer_sh cfg act auto sho st shard ss)) = snd (fst (infer_sh cfg act' auto sho st' shard ss)) /\
+  snd (infer_sh cfg act auto sho st shard ss) = snd (infer_sh cfg act' auto sho st' shard ss).
+Proof. exact infer_sh_shard_indep. Qed.
+Print Assumptions c05_shard_independent_of_activity.
+
 Theorem c05_no_sharding_key_no_shard_effect : forall cfg act sho st shard ss,
   infer_sh cfg act false sho st shard ss = (fst (infer_act cfg act st ss), shard, snd (infer_act cfg act st ss)).
 Proof. exact infer_sh_off. Qed.
